@@ -1,7 +1,8 @@
 (* C05 - Per-connection order, whole frames and gap-free sequence numbers.  Property theorems only.
    For EVERY history (any event list, any fuel, any configuration):
    - C05_stream_frames: what the manager has written to a connection c is unframe fs ++ tail, where fs is a
-     list of whole frames (header, then its payload, nothing in between), the sequence numbers in fs are
+     list of whole frames (header, then a payload of EXACTLY the size the header declares, nothing in
+     between), the sequence numbers in fs are
      exactly 1, 2, ..., length fs, and tail is empty or a single header numbered length fs + 1 on a connection
      that is dead (closed, or its sendall has started failing: the payload write failed after the header write).
      Acknowledgements, failure notices, periodic manager messages and forwarded client messages all go through
@@ -14,7 +15,7 @@
    C05_failed_notice_sized / C05_ack_is_whole_frame / C05_forward_sized (call-site level) and the
    correspondence, which compares the byte length of every payload written by the implementation. *)
 From Coq Require Import ZArith List Bool Lia.
-From Mgr Require Import Gen.MgrDefs Model.Manager Proofs.Hoare Proofs.RegInv Proofs.RegTop Proofs.StepInv Proofs.Routing Proofs.C05Inv.
+From Mgr Require Import Gen.MgrDefs Model.Manager Proofs.Hoare Proofs.RegInv Proofs.RegTop Proofs.StepInv Proofs.Routing Proofs.OutInv Proofs.C05Inv.
 Import ListNotations.
 Open Scope Z_scope.
 
@@ -36,19 +37,7 @@ Proof.
   destruct (flookup c (faults s)) as [n|]; [destruct (n <=? 0)|]; reflexivity.
 Qed.
 
-(* manager-originated headers declare the size of the payload they carry *)
-Definition pay_size (p : payload) : Z :=
-  match p with
-  | PData _ len => len
-  | PFailed _ _ => SZ_FAILED_MESSAGE
-  | PClient false _ _ _ _ _ _ => SZ_CLIENT_INFO
-  | PClient true _ _ _ _ _ _ => SZ_CLIENT_CLOSED
-  | PTiming _ _ => SZ_TIMING_MESSAGE
-  | PTraffic _ _ _ _ => SZ_MESSAGE_TRAFFIC
-  | PActive _ _ => SZ_ACTIVE_CLIENTS
-  | PLog _ => SZ_RTMA_LOG
-  end.
-
+(* manager-originated headers declare the size of the payload they carry (pay_size: Proofs/OutInv.v) *)
 Theorem C05_failed_notice_sized : forall rec c hh s, zmem (h_type hh) no_notice_types = false ->
   send_failed_with rec c hh s =
   rec (mgr_hdr MT_FAILED_MESSAGE (pay_size (PFailed (m_mod_id (find_mod c (mods s))) hh)) 0)
@@ -92,6 +81,7 @@ Proof. vm_compute. reflexivity. Qed.
 (* ---- stream-level statements, every history ---- *)
 Theorem C05_stream_frames : forall cfg FUEL es c,
   exists fs tail, proj c (out (st (run cfg FUEL es))) = unframe fs ++ tail /\
+    (forall f, In f fs -> pay_size (snd f) = h_nbytes (fst f)) /\
     map (fun f => h_count (fst f)) fs = seqZ 1 (length fs) /\
     (tail = [] \/ (exists h, tail = [OHdr h] /\ h_count h = Z.of_nat (length fs) + 1 /\ dead (st (run cfg FUEL es)) c)).
 Proof. exact stream_frames. Qed.
